@@ -116,18 +116,18 @@ Proof.
   destruct oh as [hdr1|]; [|discriminate].
   destruct (next_body Fixed hdr1 t1) as [[[e'|er|pp] t2] b2] eqn:Eb1; try discriminate.
   cbn in E1. inversion E1; subst. clear E1.
-  destruct (read_header_wf_inv _ _ _ _ Eh1 Hwf) as [-> [Hwf1 [Hsz1 Hty1]]].
+  destruct (read_header_wf_inv _ _ _ _ Eh1 Hwf) as [-> [Hwf1 [Hsz1 Hty1]]]. clear Eh1.
   destruct (next_body_type_of _ _ _ _ _ Eb1) as [Hh1 Ht1]. cbn [elem_header elem_type] in Hh1, Ht1. subst h.
   destruct hdr1 as [sz1 ty1]. cbn [h_type h_size] in *. subst ty1.
   rewrite next_body_index in Eb1. unfold bind in Eb1.
   destruct (read_u64 t1) as [[[v1|er|pp] u1] c1] eqn:R1; try discriminate.
-  destruct (read_u64_wf_inv _ _ _ _ R1 Hwf1) as [-> [Hw1 Hv1]].
+  destruct (read_u64_wf_inv _ _ _ _ R1 Hwf1) as [-> [Hw1 Hv1]]. clear R1.
   destruct (read_u64 u1) as [[[v2|er|pp] u2] c2] eqn:R2; try discriminate.
-  destruct (read_u64_wf_inv _ _ _ _ R2 Hw1) as [-> [Hw2 Hv2]].
+  destruct (read_u64_wf_inv _ _ _ _ R2 Hw1) as [-> [Hw2 Hv2]]. clear R2.
   destruct (read_u64 u2) as [[[v3|er|pp] u3] c3] eqn:R3; try discriminate.
-  destruct (read_u64_wf_inv _ _ _ _ R3 Hw2) as [-> [Hw3 Hv3]].
+  destruct (read_u64_wf_inv _ _ _ _ R3 Hw2) as [-> [Hw3 Hv3]]. clear R3.
   destruct (read_u64 u3) as [[[v4|er|pp] u4] c4] eqn:R4; try discriminate.
-  destruct (read_u64_wf_inv _ _ _ _ R4 Hw3) as [-> [Hw4 Hv4]].
+  destruct (read_u64_wf_inv _ _ _ _ R4 Hw3) as [-> [Hw4 Hv4]]. clear R4.
   cbn in Eb1. inversion Eb1; subst. clear Eb1.
   (* second element *)
   unfold next, bind in E2.
@@ -135,7 +135,7 @@ Proof.
   destruct oh as [hdr2|]; [|discriminate].
   destruct (next_body Fixed hdr2 t3) as [[[e'|er|pp] t4] b4] eqn:Eb2; try discriminate.
   cbn in E2. inversion E2; subst. clear E2.
-  destruct (read_header_wf_inv _ _ _ _ Eh2 Hw4) as [-> [Hwf3 [Hsz2 Hty2]]].
+  destruct (read_header_wf_inv _ _ _ _ Eh2 Hw4) as [-> [Hwf3 [Hsz2 Hty2]]]. clear Eh2.
   destruct (next_body_type_of _ _ _ _ _ Eb2) as [Hh2 Ht2]. cbn [elem_header elem_type] in Hh2, Ht2. subst h0.
   destruct hdr2 as [sz2 ty2]. cbn [h_type h_size] in *. subst ty2.
   rewrite next_body_table in Eb2.
@@ -144,17 +144,17 @@ Proof.
   unfold bind in Eb2. unfold with_input_fuel in Eb2.
   destruct (table_loop (S (length t3)) [] t3) as [[[its|er|pp] u5] c5] eqn:Etl; try discriminate.
   destruct (table_loop_wf_inv _ _ _ _ _ _ Etl Hwf3) as [its' [Hits [Ht3 [Hw5 Hwfi]]]].
-  cbn [rev app] in Hits. subst its'.
+  cbn [rev app] in Hits. subst its'. clear Etl.
   destruct (read_u64 u5) as [[[f2|er|pp] u6] c6] eqn:R5; try discriminate.
-  destruct (read_u64_wf_inv _ _ _ _ R5 Hw5) as [-> [Hw6 Hf2]].
+  destruct (read_u64_wf_inv _ _ _ _ R5 Hw5) as [-> [Hw6 Hf2]]. clear R5.
   destruct (negb (f2 =? 0)) eqn:Ef2; [discriminate|].
   apply negb_false_iff, N.eqb_eq in Ef2. subst f2.
   destruct (read_u64 u6) as [[[x|er|pp] u7] c7] eqn:R6; try discriminate.
-  destruct (read_u64_wf_inv _ _ _ _ R6 Hw6) as [-> [Hw7 Hx]].
+  destruct (read_u64_wf_inv _ _ _ _ R6 Hw6) as [-> [Hw7 Hx]]. clear R6.
   destruct (read_u64 u7) as [[[y|er|pp] u8] c8] eqn:R7; try discriminate.
-  destruct (read_u64_wf_inv _ _ _ _ R7 Hw7) as [-> [Hw8 Hy]].
+  destruct (read_u64_wf_inv _ _ _ _ R7 Hw7) as [-> [Hw8 Hy]]. clear R7.
   destruct (read_u64 u8) as [[[mk|er|pp] u9] c9] eqn:R8; try discriminate.
-  destruct (read_u64_wf_inv _ _ _ _ R8 Hw8) as [-> [Hw9 Hmk]].
+  destruct (read_u64_wf_inv _ _ _ _ R8 Hw8) as [-> [Hw9 Hmk]]. clear R8.
   destruct (negb (mk =? CaFormatTableTailMarker)) eqn:Emk; [discriminate|].
   apply negb_false_iff, N.eqb_eq in Emk. subst mk.
   cbn in Eb2. inversion Eb2; subst. clear Eb2.
